@@ -128,9 +128,20 @@ def simplifyMulti (excl : List Char) (n : StrNode) : StrNode :=
     { n with multi := false, value := decodeEscapes n.raw }
   else n
 
-/-- second rule: `fmark` is the marker list of the f-string test (`'@'`) -/
-def simplifyF (fmark : List Char) (n : StrNode) : StrNode :=
-  if n.fstr && !(fmark.any (fun x => n.value.contains x)) then { n with fstr := false } else n
+/-- second rule, parametric in the formatter's placeholder recogniser `keep` ("this value may be substituted
+into, keep the `f`"): `if node.is_fstring and not keep(node.value): node.is_fstring = False` -/
+def simplifyFWith (keep : List Char → Bool) (n : StrNode) : StrNode :=
+  if n.fstr && !(keep n.value) then { n with fstr := false } else n
+
+/-- the recogniser as coded: `'@' in node.value` — some member of the marker list occurs in the value -/
+def markerKeep (fmark : List Char) (v : List Char) : Bool := fmark.any (fun x => v.contains x)
+
+/-- second rule as coded: `fmark` is the marker list of the f-string test (`'@'`) -/
+def simplifyF (fmark : List Char) (n : StrNode) : StrNode := simplifyFWith (markerKeep fmark) n
+
+/-- `TrimWhitespaces.visit_StringNode` with an arbitrary placeholder recogniser -/
+def simplifyWith (excl : List Char) (keep : List Char → Bool) (on : Bool) (n : StrNode) : StrNode :=
+  if !on then n else simplifyFWith keep (simplifyMulti excl n)
 
 /-- `TrimWhitespaces.visit_StringNode` (mformat.py:366-377) -/
 def simplify (excl fmark : List Char) (on : Bool) (n : StrNode) : StrNode :=
@@ -144,6 +155,11 @@ def printStr (n : StrNode) : List Char :=
 /-- the node obtained by lexing and parsing the printed literal again (defined when it lexes) -/
 def reparse (n : StrNode) : StrNode :=
   if n.multi then parseStr n.value true n.fstr else parseStr n.raw false n.fstr
+
+/-- the same for an arbitrary placeholder recogniser -/
+def PreservesWith (excl : List Char) (keep : List Char → Bool) (n : StrNode) : Prop :=
+  ((simplifyWith excl keep true n).multi = false → plainLexable (simplifyWith excl keep true n).raw = true) ∧
+  denote (reparse (simplifyWith excl keep true n)) = denote n
 
 /-- the simplified literal still lexes as one string token and denotes the same string -/
 def Preserves (excl fmark : List Char) (n : StrNode) : Prop :=
